@@ -286,6 +286,24 @@ def _format_attr_name(segment: _NPathSegment) -> str:
     return segment.name
 
 
+def _unparse_npath(segments: list[_NPathSegment]) -> str:
+    """Spell parsed segments as an NPath that _parse_npath reads back unchanged."""
+    parts: list[str] = []
+    for segment in segments:
+        if not segment.quoted:
+            parts.append(segment.name)
+            continue
+        body = (
+            segment.name.replace("\\", "\\\\")
+            .replace('"', '\\"')
+            .replace("\n", "\\n")
+            .replace("\r", "\\r")
+            .replace("\t", "\\t")
+        )
+        parts.append(f'"{body}"')
+    return ".".join(parts)
+
+
 def _format_npath_segments(npath: str) -> list[str]:
     """Parse an NPath into formatted binding-name segments."""
     return [_format_attr_name(segment) for segment in _parse_npath(npath)]
@@ -613,7 +631,7 @@ def _set_value_in_attrset(
     if inner_set is not None:
         _set_value_in_attrset(
             inner_set,
-            ".".join(segments[1:]),
+            _unparse_npath(_parse_npath(npath)[1:]),
             value_expr,
             let_bindings=let_bindings,
         )
@@ -704,7 +722,7 @@ def _remove_value_in_attrset(target_set: AttributeSet, npath: str) -> None:
 
     inner_set = _explicit_set_with_attrpaths(target_set, segments, attrpath_root)
     if inner_set is not None:
-        _remove_value_in_attrset(inner_set, ".".join(segments[1:]))
+        _remove_value_in_attrset(inner_set, _unparse_npath(_parse_npath(npath)[1:]))
         return
 
     if len(segments) == 1:
